@@ -77,6 +77,7 @@ type Rec struct {
 	Depth     int         `json:"depth"`
 	Extra     int         `json:"extra"`
 	Nodes     uint64      `json:"nodes"`
+	Drifted   bool        `json:"phase_drifted_root"` // the root position's game phase differs from that of a fresh position from its FEN
 	Clamps    int64       `json:"phase_clamps"` // game phase sums above the maximum cut down during the search (hook): the phase may have drifted
 	ElapsedMs float64     `json:"elapsed_ms"`
 	Pv        []int       `json:"pv"`
@@ -226,6 +227,9 @@ func runSearch(s *search.Search, cap *capture, j *Job, rec *Rec, watchdog time.D
 	p := buildPos(j)
 	rec.Fen = p.StringFen()
 	rec.RepRoot = p.CheckRepetitions(2) || p.HalfMoveClock() >= 100
+	if fresh, _ := position.NewPositionFen(p.StringFen()); fresh != nil {
+		rec.Drifted = fresh.GamePhase() != p.GamePhase()
+	}
 	before := takeSnap(p, false)
 	sl := limitsOf(j, p)
 	var terms []termEvent
